@@ -145,7 +145,7 @@ def exec_multi_tan(case, k, classes, desc):
             def go():
                 with warnings.catch_warnings():
                     warnings.simplefilter("ignore")
-                    proc.tile(pio, parallel=k)
+                    proc.tile(pio, parallel=k, cli_progress=bool(case.get("progress")))
 
             return go
 
@@ -214,7 +214,7 @@ def exec_multi_wcs(case, k, classes, desc):
             def go():
                 with warnings.catch_warnings():
                     warnings.simplefilter("ignore")
-                    proc.tile(pio, reproj, parallel=k)
+                    proc.tile(pio, reproj, parallel=k, cli_progress=bool(case.get("progress")))
 
             return go
 
@@ -247,8 +247,8 @@ def exec_case(case):
         def make_target(w):
             rec = scen.Recorder(w, fail_at=fail, fail_exc=E)
             if stage == "walk":
-                return lambda: scen.make_pyramid(case).walk(rec.walk_cb, parallel=k)
-            return lambda: scen.make_pyramid(case).visit_leaves(rec.leaf_cb, parallel=k)
+                return lambda: scen.make_pyramid(case).walk(rec.walk_cb, parallel=k, cli_progress=bool(case.get("progress")))
+            return lambda: scen.make_pyramid(case).visit_leaves(rec.leaf_cb, parallel=k, cli_progress=bool(case.get("progress")))
 
         first = order[0]
         classes += [case["kind"], f"depth{case['depth']}"]
@@ -277,8 +277,8 @@ def exec_case(case):
             pio = FailingPio(w, [], which)
             kw = {"pio_out": FakePio(w, [], which)} if case.get("sep_out") else {}
             if which == "f16x3":
-                return lambda: transform.f16x3_to_rgb(pio, depth, parallel=k, **kw)
-            return lambda: transform.u8_to_rgb(pio, depth, parallel=k, **kw)
+                return lambda: transform.f16x3_to_rgb(pio, depth, parallel=k, cli_progress=bool(case.get("progress")), **kw)
+            return lambda: transform.u8_to_rgb(pio, depth, parallel=k, cli_progress=bool(case.get("progress")), **kw)
 
         classes += [which] + (["separate-output-pyramid"] if case.get("sep_out") else [])
 
@@ -384,6 +384,8 @@ def strat(draw, tier):
     else:
         case = draw(scen.pyramid_cases(3 if tier == "quick" else 5, deep_one_in=12))
         case["stage"] = stage
+    if draw(st.integers(0, 3)) == 0:
+        case["progress"] = True  # the command-line progress display switched on (its output is captured: not a terminal)
     case["fail_idx"] = draw(st.one_of(st.integers(0, 2000), st.integers(0, 2)))
     case["exc"] = draw(st.sampled_from(["runtime", "runtime", "os", "value", "key", "plain", "builtin-os", "builtin-value", "empty", "kill"]))
     if case["exc"] == "kill" and (case.get("k", 1) == 1 or case["stage"] not in ("walk", "leaves")):
